@@ -1,5 +1,5 @@
 check("C13", "model_checking",
-      "TLC checks StageMonotone / SucceededIsFinal / SizeMonotone / CancelStops / ReleaseRemoves / UniqueIDs of WorkUnit.tla for every interleaving of 2 client sessions x 2 "
+      "TLC checks StageMonotone / SucceededIsFinal / SizeMonotone / CancelStops / ReleaseRemoves / UniqueIDs of WorkUnit.tla for every interleaving of 2 client sessions with 2+1 (quick) / 2+2 (thorough) "
       "operations with runner, payload and daemon goroutines on one unit (plus a two-id configuration with forced id collisions); the real daemon is then driven with seeded "
       "3-client histories, a concurrent-submit burst and the TLC-found cancel-vs-completion schedule (SIGSTOP as gate); every sf_apply event of daemon and runner processes and every "
       "control-socket answer is checked, /proc decides CancelStops, the data directory ReleaseRemoves; each unit's rewrite stream is validated by TLC against WorkUnitTrace.tla and its status-file event stream against StatusFileTrace.tla.",
